@@ -767,3 +767,49 @@ pub fn random_model(rng: &mut Rng, max_nodes: usize, max_size: u64) -> Model {
     }
     m
 }
+
+/// Repaints the sibling trees of a valid image (typically one the library wrote: all black)
+/// the way another writer might have left them: some nodes red, never a red node under a
+/// red parent, tops of sibling trees black.  The library does not check black heights and
+/// neither does the format's rule set here, so every such colouring is a legal file.
+/// Returns the number of nodes painted red (0 = image unchanged or not parseable).
+pub fn repaint_red(bytes: &mut [u8], rng: &mut Rng) -> usize {
+    let img = match crate::refparse::parse(bytes) {
+        Ok(i) => i,
+        Err(_) => return 0,
+    };
+    const NONE: u32 = 0xFFFF_FFFF;
+    let n = img.entries.len();
+    let mut painted = 0;
+    let mut seen = vec![false; n];
+    // (node, parent_is_red); tops come from the child link of every storage / the root
+    let mut stack: Vec<(u32, bool, bool)> = Vec::new();
+    for e in &img.entries {
+        if (e.obj_type == 1 || e.obj_type == 5) && e.child != NONE {
+            stack.push((e.child, false, true));
+        }
+    }
+    while let Some((id, parent_red, top)) = stack.pop() {
+        let i = id as usize;
+        if i >= n || seen[i] {
+            continue;
+        }
+        seen[i] = true;
+        let e = &img.entries[i];
+        if e.obj_type != 1 && e.obj_type != 2 {
+            continue;
+        }
+        let red = !top && !parent_red && rng.chance(1, 2);
+        bytes[e.off + 67] = if red { 0 } else { 1 };
+        if red {
+            painted += 1;
+        }
+        if e.left != NONE {
+            stack.push((e.left, red, false));
+        }
+        if e.right != NONE {
+            stack.push((e.right, red, false));
+        }
+    }
+    painted
+}
